@@ -1,6 +1,6 @@
 (** C11 - a panic in caller-supplied code leaves a valid array. *)
 From TD Require Import Base.Prelude Spec.Grid Spec.Inv Model.Iter Model.Owned Model.Hist
-  Proofs.HistInv.
+  Proofs.HistInv Proofs.InsertRowAny.
 
 (** insert_row / push_row with ANY iterator script: any claimed length (every [N], so
     usize::MAX and lengths that overflow the reservation), ending early or late, panicking
@@ -17,6 +17,19 @@ Theorem C11_insert_col_any_iterator :
   Inv t -> insert_col dbg cap spare t index s = Ok r -> Inv (o_td r).
 Proof. exact @insert_col_inv. Qed.
 Print Assumptions C11_insert_col_any_iterator.
+
+(** ... and the call ALWAYS returns or unwinds cleanly: for every array satisfying the
+    invariant, every index, every iterator script (any claimed length in N, ending early or
+    late, panicking at any call) the model never answers UB - no block copy or write leaves
+    the reserved buffer, the Vec never owns an uninitialised slot - and every element is
+    accounted for exactly once: owned by the array afterwards, dropped with the iterator,
+    or leaked (never dropped twice, never both reachable and dropped) *)
+Theorem C11_insert_row_never_ub :
+  forall (A : Type) dbg cap spare (t : toodee A) (index : N) (s : iter_script A),
+  Inv t -> exists r, insert_row dbg cap spare t index s = Ok r /\ Inv (o_td r) /\
+                     Permutation.Permutation (data (o_td r) ++ o_dropped r ++ o_leaked r) (data t ++ items s).
+Proof. exact @insert_row_any. Qed.
+Print Assumptions C11_insert_row_never_ub.
 
 (** whole histories with faults at any step - panicking iterators, lying lengths, element
     destructors that panic during removals / clear ([HBomb]) - keep a valid array after
